@@ -10,6 +10,7 @@ import (
 	"os/exec"
 	"sort"
 	"strings"
+	"time"
 
 	cedar "github.com/cedar-policy/cedar-go"
 	"github.com/cedar-policy/cedar-go/types"
@@ -41,7 +42,7 @@ func init() {
 			"Stream set-history: the same policy objects under the same ids put into 6 PolicySets along different histories (shuffled Add order, MarshalCedar/MarshalJSON between the Adds, temporary Add+Remove, Remove+re-Add); all must encode to the same bytes. " +
 			"Stream encoder-write-failures: one cedar.Encoder used for 2-6 policies while the io.Writer fails at 1-3 injected calls (retrying or moving on); every Encode hands the writer exactly what a fresh encoder writes for that policy. " +
 			"Stream interleaved-encoders: the encoders and other read-only calls of one Schema / Policy / PolicySet / value in 14 random interleavings; each encoder's output never changes. " +
-			"Stream cross-process: a fixed corpus (values, uid sets, entity maps, policies, policy sets, authorization results, decoded documents, schemas) is encoded here and in 3 freshly started child processes; the digests must agree line by line."
+			"Stream cross-process: a fixed corpus (values, uid sets, entity maps, policies, policy sets, authorization results, decoded documents, schemas) is encoded here and in 3 freshly started child processes (the last one with a non-UTC process-local time zone); the digests must agree line by line."
 		c14mixedPlaceholders(c)
 		c14setHistory(c)
 		c14encoderFaults(c)
@@ -388,6 +389,12 @@ func c14corpus(seed uint64, n int) []string {
 			add("value MarshalCedar", v.MarshalCedar(), nil)
 			add("value String", []byte(v.String()), nil)
 		}
+		// datetimes print in UTC whatever the process-local zone is
+		dtv := types.NewDatetimeFromMillis(int64(r.U64()>>14) - (1 << 48))
+		jb, jerr := json.Marshal(dtv)
+		add("datetime MarshalJSON", jb, jerr)
+		add("datetime String", []byte(dtv.String()), nil)
+		add("datetime MarshalCedar", dtv.MarshalCedar(), nil)
 		var uids []types.Value
 		for k := 0; k < 2+r.Intn(6); k++ {
 			uids = append(uids, bridge.ToUID(gen.RandUID(r)))
@@ -442,6 +449,10 @@ func c14digestChild(args []string) int {
 	}
 	fmt.Sscan(args[0], &seed)
 	fmt.Sscan(args[1], &n)
+	if len(args) > 2 && args[2] == "localzone" {
+		// a process whose local time zone is not UTC (a fixed zone: no tzdata needed)
+		time.Local = time.FixedZone("verif+0530", 5*3600+1800)
+	}
 	w := bytes.Buffer{}
 	for _, l := range c14corpus(seed, n) {
 		w.WriteString(l)
@@ -464,7 +475,11 @@ func c14crossProcess(c *mon.Ctx) {
 		kinds := map[string]bool{}
 		for ch := 0; ch < children; ch++ {
 			var out, errb bytes.Buffer
-			cmd := exec.Command(exe, "C14-digest", fmt.Sprint(c.Seed), fmt.Sprint(n))
+			cargs := []string{"C14-digest", fmt.Sprint(c.Seed), fmt.Sprint(n)}
+			if ch == children-1 {
+				cargs = append(cargs, "localzone") // the last child runs with a non-UTC local zone
+			}
+			cmd := exec.Command(exe, cargs...)
 			cmd.Stdout, cmd.Stderr = &out, &errb
 			if err := cmd.Run(); err != nil {
 				w.Inconclusive(fmt.Sprintf("child process %d did not finish: %v %s", ch, err, firstLine(errb.String())))
